@@ -280,6 +280,24 @@ func (cleanScen) Exec(w *World, cc any, prop string) *Result {
 						optional = append(optional, filepath.Join(proj, filepath.FromSlash(d)))
 					}
 				}
+				// likewise left open: a file whose path *through a symbolic link to a directory* matches the
+				// pattern (out/include -> ../src, pattern out/**: is src/main.c, alias out/include/main.c, an
+				// output?). Removing it is tolerated, leaving it is too.
+				for l, target := range c.Links {
+					if _, isLink := model[l]; !isLink {
+						continue
+					}
+					tdir := filepath.ToSlash(filepath.Join(filepath.Dir(l), target))
+					for f := range model {
+						if strings.HasPrefix(f, tdir+"/") {
+							alias := l + "/" + strings.TrimPrefix(f, tdir+"/")
+							if !strings.HasPrefix(alias, ".") && GlobMatch(o.Value, alias) {
+								optional = append(optional, filepath.Join(proj, filepath.FromSlash(f)))
+								kinds["glob-through-dirlink"] = true
+							}
+						}
+					}
+				}
 			}
 		}
 	}
@@ -398,7 +416,7 @@ func (cleanScen) Exec(w *World, cc any, prop string) *Result {
 	// ---- nothing outside the designated set (and the cache) disappears; nothing is created or modified
 	for _, p := range removed {
 		if !allowed(p) && tolerated(p) {
-			res.count("accept_either:directory_matching_an_output_glob_removed")
+			res.count("accept_either:directory_matching_an_output_glob_or_file_behind_a_directory_link_removed")
 			continue
 		}
 		if !allowed(p) {
